@@ -769,6 +769,9 @@ else:
     if TYPE_CHECKING:
         from multiprocessing import Queue
 
+    class AbortQueue:
+        pass
+
     class ChunkProcessingTask:
         """Defines the worker task which splits catalog data into paches and
         puts the data into the writer process queue."""
@@ -819,6 +822,8 @@ else:
                 buffersize=self.buffersize,
             ) as writer:
                 while (patches := self.patch_queue.get()) is not EndOfQueue:
+                    if patches is AbortQueue:
+                        raise RuntimeError("catalog creation aborted")
                     writer.process_patches(patches)
 
         def start(self) -> None:
@@ -826,6 +831,8 @@ else:
 
         def join(self) -> None:
             self.process.join()
+            if self.process.exitcode != 0:
+                raise RuntimeError("writer process failed")
 
     def write_patches(
         path: Path | str,
@@ -904,11 +911,17 @@ else:
                 overwrite=overwrite,
                 buffersize=buffersize,
             ):
-                chunk_iter = Indicator(reader) if progress else iter(reader)
-                for chunk in chunk_iter:
-                    pool.map(chunk_processing_task, np.array_split(chunk, max_workers))
-
-                patch_queue.put(EndOfQueue)
+                try:
+                    chunk_iter = Indicator(reader) if progress else iter(reader)
+                    for chunk in chunk_iter:
+                        pool.map(
+                            chunk_processing_task, np.array_split(chunk, max_workers)
+                        )
+                except BaseException:
+                    patch_queue.put(AbortQueue)  # otherwise the writer never exits
+                    raise
+                else:
+                    patch_queue.put(EndOfQueue)
 
 
 class Catalog(Mapping[int, Patch]):
